@@ -249,6 +249,76 @@ func runC43(c *Ctx) {
 	c.Floor(r2, 6)
 	checkExploreHeapOrder(c, "explore-heap-ordered-by-cutoff-key")
 	c.Floor("explore-heap-ordered-by-cutoff-key", 2)
+	checkAllWalkPassesKnownCommits(c, "all-walk-passes-known-commits")
+	c.Floor("all-walk-passes-known-commits", 1)
+}
+
+// checkAllWalkPassesKnownCommits: the --all walk adds, reference by reference, the commits of each reference's history
+// that are not collected yet. Meeting a commit that is already collected says nothing about the other parents of the
+// merges seen so far: the walk over the reference's history may skip the known commit, it may not end there. In
+// addReference the loop that drains the reference's iterator must have no `break` under the "already collected" test.
+func checkAllWalkPassesKnownCommits(c *Ctx, rule string) {
+	fi := c.MustFunc(rule, objShort+".addReference")
+	if fi == nil {
+		return
+	}
+	info := fi.Pkg.TypesInfo
+	c.Analysed(fi)
+	var loop *ast.ForStmt
+	ast.Inspect(fi.Decl.Body, func(n ast.Node) bool {
+		fs, ok := n.(*ast.ForStmt)
+		if !ok {
+			return true
+		}
+		if nodeHasCall(fs, false, func(call *ast.CallExpr) bool {
+			sel, ok := unparen(call.Fun).(*ast.SelectorExpr)
+			return ok && sel.Sel.Name == "Next"
+		}) != nil && loop == nil {
+			loop = fs
+		}
+		return true
+	})
+	if loop == nil {
+		c.Unresolved(rule, fi.Name()+":drain-loop", fi.Decl.Pos(), "no loop that drains the reference's iterator found")
+		return
+	}
+	// flags of lookups in the collected set: `x, exists = lookup[c.Hash]`
+	flags := map[types.Object]bool{}
+	ast.Inspect(loop, func(n ast.Node) bool {
+		if as, ok := n.(*ast.AssignStmt); ok && len(as.Lhs) == 2 && len(as.Rhs) == 1 {
+			if _, isIx := unparen(as.Rhs[0]).(*ast.IndexExpr); isIx {
+				if o := objOf(info, as.Lhs[1]); o != nil {
+					flags[o] = true
+				}
+			}
+		}
+		return true
+	})
+	bad := token.NoPos
+	ast.Inspect(loop.Body, func(n ast.Node) bool {
+		ifs, ok := n.(*ast.IfStmt)
+		if !ok {
+			return true
+		}
+		uses := false
+		ast.Inspect(ifs.Cond, func(m ast.Node) bool {
+			if id, ok := m.(*ast.Ident); ok && flags[info.Uses[id]] {
+				uses = true
+			}
+			return true
+		})
+		if !uses {
+			return true
+		}
+		for _, st := range ifs.Body.List {
+			if br, ok := st.(*ast.BranchStmt); ok && br.Tok == token.BREAK {
+				bad = br.Pos()
+			}
+		}
+		return true
+	})
+	c.Check(!bad.IsValid(), rule, fi.Name()+":stops-at-known-commit", orPos(bad, loop.Pos()), orStr(ifStr(bad.IsValid(), "the walk over a reference's history ends at the first commit that is already collected: commits reachable only through another parent of a merge seen before that point are never collected and are missing from log --all"),
+		"already collected commits are passed over, the walk goes on"))
 }
 
 // checkExploreHeapOrder: the topological commit-graph walker stops exploring when the top of its explore heap has a
